@@ -80,6 +80,16 @@ fn fixtures(seed: u64) -> (Fx, Party, Party) {
         files.push((format!("{}-trailing.ktl", mode), t));
         files.push((format!("{}-badchunk3.ktl", mode), flip(three, rec3 + 20)));
     }
+    // files whose plaintext is EMPTY (one record of length 0): authentic, and with the tag of that record changed
+    {
+        let k0 = r::write_key_file(&alice.sk, &bob.pk, &e, &pay, &[], &[0]).unwrap();
+        let q0 = r::write_pass_file_with_key(&pk, &salt, &[], &[0]);
+        for (mode, f) in [("key", &k0), ("pass", &q0)] {
+            files.push((format!("{}-emptyplain.ktl", mode), f.to_vec()));
+            files.push((format!("{}-emptyplain-badtag.ktl", mode), flip(f, f.len() - 1)));
+            files.push((format!("{}-emptyplain-badtag0.ktl", mode), flip(f, f.len() - 16)));
+        }
+    }
     // a file of 17 chunks (> 1 MiB of plaintext) whose 10th chunk is corrupt
     let p17 = plaintext(seed ^ 0xd7, 16 * CS + 123);
     let mut ch17 = vec![CS; 16];
@@ -139,6 +149,15 @@ fn cases(fx: &Fx) -> Vec<Case> {
     add("decrypt/output-equals-input", vec!["decrypt", "key1.ktl", "-t", "bob", "-k", "kr.txt", "-o", "key1.ktl", "--env-pass"], bpw.to_vec(), None, "key1.ktl", None);
     add("decrypt/password-file-given", vec!["decrypt", "pass1.ktl", "-t", "bob", "-k", "kr.txt", "-o", o, "--env-pass"], bpw.to_vec(), None, o, None);
     for t in ["badmagic", "badheader", "badheader-last", "badchunk1", "badchunk1-tag", "badchunk1-len", "badchunk1-flag", "truncchunk1", "trunc-header", "empty"] {
+        let f = format!("key-{}.ktl", t);
+        add(&format!("decrypt/{}", t), vec!["decrypt", &f, "-t", "bob", "-k", "kr.txt", "-o", o, "--env-pass"], bpw.to_vec(), None, o, None);
+        let f = format!("pass-{}.ktl", t);
+        add(&format!("pass-decrypt/{}", t), vec!["password", "decrypt", &f, "-o", o, "--env-pass"], fpw.to_vec(), None, o, None);
+    }
+    // empty-plaintext files: a wrong password / key and a changed tag fail before any authenticated output exists
+    add("decrypt/emptyplain-wrong-recipient-key", vec!["decrypt", "key-emptyplain.ktl", "-t", "alice", "-k", "kr.txt", "-o", o, "--env-pass"], apw.to_vec(), None, o, None);
+    add("pass-decrypt/emptyplain-wrong-password", vec!["password", "decrypt", "pass-emptyplain.ktl", "-o", o, "--env-pass"], apw.to_vec(), None, o, None);
+    for t in ["emptyplain-badtag", "emptyplain-badtag0"] {
         let f = format!("key-{}.ktl", t);
         add(&format!("decrypt/{}", t), vec!["decrypt", &f, "-t", "bob", "-k", "kr.txt", "-o", o, "--env-pass"], bpw.to_vec(), None, o, None);
         let f = format!("pass-{}.ktl", t);
